@@ -191,7 +191,9 @@ def dec_impl(w):
             f = (dec_text(a), dec_text(b))
         cells[dec_text(fs[0])] = (dec_text(fs[1]), dec_val(fs[2]), f,
                                   [] if fs[4] == '-' else [dec_text(x) for x in fs[4].split('~')])
-    formulae = {dec_text(fs[0]): (dec_text(fs[1]), dec_text(fs[2])) for fs in split_entries(formulae_w)}
+    formulae = {dec_text(fs[0]): (dec_text(fs[1]), dec_text(fs[2]),
+                                  [] if fs[3] == '-' else sorted({dec_text(x) for x in fs[3].split('~')}))
+                for fs in split_entries(formulae_w)}
     names = {}
     for fs in split_entries(names_w):
         names[dec_text(fs[0])] = ('C', dec_text(fs[2])) if fs[1] == 'C' else ('R',) + dec_range(fs[2:])
@@ -424,7 +426,8 @@ def real_model(model):
     for k, c in model.cells.items():
         f = None if c.formula is None else (c.formula.formula, c.formula.sheet_name)
         cells[k] = (c.address, py_val(c.value), f, list(c.defined_names))
-    formulae = {k: (f.formula, f.sheet_name) for k, f in model.formulae.items()}
+    formulae = {k: (f.formula, f.sheet_name, sorted({t for t in f.terms if ':' in t}))   # the area terms
+                for k, f in model.formulae.items()}
     names = {}
     for k, d in model.defined_names.items():
         if isinstance(d, xltypes.XLCell):
@@ -924,6 +927,40 @@ class Gen:
                 [L('>'), L('1'), L(','), L('"big"'), L(','), L('"small"'), L(')')]
         return toks
 
+    def same_text_template(self, row):
+        """{position: formula form} for rows `row`.. : plain formulas and one shared group whose texts use only
+        unqualified references into the block A1:B2 (and beyond it after translation)"""
+        rng = self.rng
+
+        def ref():
+            return CELL(rng.randint(1, 2), rng.randint(1, 2), rng.random() < 0.2, rng.random() < 0.2)
+
+        def area():
+            c1, r1 = rng.randint(1, 2), rng.randint(1, 2)
+            c2, r2 = rng.randint(c1, 2), rng.randint(r1, 3)
+            fl = [rng.random() < 0.2 for _ in range(4)]
+            return [CELL(c1, r1, fl[0], fl[1]), L(':'), CELL(c2, r2, fl[2], fl[3])]
+
+        def text():
+            k = rng.random()
+            if k < 0.35:
+                return [L('SUM'), L('(')] + area() + [L(')')]
+            if k < 0.55:
+                return [ref(), L('*'), L(str(rng.randint(2, 5)))]
+            if k < 0.75:
+                return [ref(), L(rng.choice(['+', '-', '*'])), ref()]
+            return [L('SUM'), L('(')] + area() + [L(')'), L(rng.choice(['+', '-'])), ref()]
+
+        out = {}
+        for c in range(1, rng.randint(1, 3) + 1):
+            out[(c, row)] = ['P', text()]
+        if rng.random() < 0.6:
+            out[(1, row + 1)] = ['M', 9, text()]
+            for pos in [(2, row + 1), (3, row + 1), (1, row + 2), (2, row + 2)]:
+                if rng.random() < 0.6:
+                    out[pos] = ['S', 9]
+        return out
+
     def workbook(self):
         rng = self.rng
         names_of_sheets = self.sheet_names()
@@ -977,6 +1014,20 @@ class Gen:
                 kinds[pos] = rng.choice(['num', 'num', 'num', 'any', 'formula', 'formula'])
             sheet_cells[sn] = kinds
             numeric[sn] = [p for p, k in kinds.items() if k in ('num', 'formula')]
+        # the SAME formula texts (unqualified references and areas, a shared group too) on several sheets, over
+        # different data: every parsed formula must belong to the sheet of its own cell
+        template, template_sheets = {}, []
+        if len(names_of_sheets) >= 2 and rng.random() < 0.5:
+            k = rng.randint(2, len(names_of_sheets))
+            template_sheets = rng.sample(names_of_sheets, k)
+            template = self.same_text_template(nrows + 1)
+            for sn in template_sheets:
+                for pos in [(1, 1), (1, 2), (2, 1), (2, 2)]:
+                    if rng.random() < 0.85:
+                        sheet_cells[sn][pos] = 'num'
+                for pos in template:
+                    sheet_cells[sn][pos] = 'formula'
+                numeric[sn] = [p for p, kd in sheet_cells[sn].items() if kd in ('num', 'formula')]
         for sn in names_of_sheets:
             others = [o for o in names_of_sheets if o != sn]
             kinds = sheet_cells[sn]
@@ -985,6 +1036,10 @@ class Gen:
             si = 0
             positions = sorted(kinds, key=lambda p: (p[1], p[0]))
             taken = set()
+            if sn in template_sheets:
+                for pos, f in template.items():
+                    out[pos] = json.loads(json.dumps(f))
+                    taken.add(pos)
             if rng.random() < 0.6 and positions:
                 for _ in range(rng.choice([1, 1, 2])):
                     free = [p for p in positions if kinds[p] == 'formula' and p not in taken]
@@ -1230,6 +1285,16 @@ class Checker:
                 continue
             for c in s['cells']:
                 res.count('form:' + (c['f'][0] if c['f'] else 'const') + '/' + c['st'][0])
+        texts = {}
+        for s in wb['sheets']:
+            if s['name'] not in ig:
+                for c in s['cells']:
+                    if c['f'] is not None and c['f'][0] in ('P', 'M'):
+                        texts.setdefault(render(c['f'][-1]), set()).add(s['name'])
+        nshared = len([t for t, ss in texts.items() if len(ss) > 1])
+        if nshared:
+            res.count('loads-with-a-formula-text-on-several-sheets')
+            res.count('formula-texts-on-several-sheets', nshared)
         for d in wb['names']:
             t = d['target']
             res.count('name:' + ('raw' if t[0] == 'R' else ('range' if len(t) > 7 else 'cell')
@@ -1478,7 +1543,8 @@ def run(ctx):
                 'apostrophes, with "!" and "$"), 2-5 x 2-6 grids with every storage form (n int/float, s, str, inlineStr, '
                 'b, e, date-styled, empty; formulas with every kind of cached result or none; shared masters with '
                 'members in rows, columns, rectangles and scattered, mixed $ references, cross-sheet references, '
-                'reference-like text literals), 0-4 defined names (cells, ranges, $/no $, quoted sheets, hidden, '
+                'reference-like text literals; in half of the multi-sheet workbooks the same unqualified formula texts and '
+                'a same-text shared group on 2-4 sheets over different data), 0-4 defined names (cells, ranges, $/no $, quoted sheets, hidden, '
                 '#REF!, empty or ignored targets), loaded once per subset of ignored sheets; compared with Spec '
                 '(cells, contents, names, cached values), with the Lean model (all dicts) and by evaluation with a '
                 'read_and_parse_dict model and the harness\'s own values. One evaluation = one (workbook, ignore '
